@@ -85,6 +85,7 @@ func (f *Fix) mkChannel(n int, clientID, hubChan, cpChan string) {
 func (f *Fix) ibcRecv(pkt channeltypes.Packet, proofHeight uint64, relayer sdk.AccAddress) (res string) {
 	ck := f.App.IBCKeeper.ChannelKeeper
 	pkLastRecvEvents = nil
+	pkLastRecvErr = nil
 	// core RecvPacket checks the channel state before anything else (OPEN / FLUSHING / FLUSHCOMPLETE)
 	if !f.chanAccepts(pkt.DestinationPort, pkt.DestinationChannel) {
 		return "chanClosed"
@@ -119,6 +120,7 @@ func (f *Fix) ibcRecv(pkt channeltypes.Packet, proofHeight uint64, relayer sdk.A
 		return ck.WriteAcknowledgement(ctx, chanCap, pkt, ack)
 	})
 	if err != nil {
+		pkLastRecvErr = err
 		if IsPanic(err) {
 			return "panic"
 		}
@@ -126,6 +128,9 @@ func (f *Fix) ibcRecv(pkt channeltypes.Packet, proofHeight uint64, relayer sdk.A
 	}
 	return res
 }
+
+// pkLastRecvErr: the error (or recovered panic, with its stack) of the last failed ibcRecv
+var pkLastRecvErr error
 
 // chanAccepts: the channel end is in a state in which core IBC accepts packets / acknowledgements
 func (f *Fix) chanAccepts(port, channel string) bool {
@@ -190,6 +195,10 @@ func (f *Fix) proofCtx(ctx sdk.Context, typ commontypes.RollappPacket_Type, pkt 
 			after = append(after, mk(t, 1))
 		}
 	}
+	// ... and an earlier message of the SAME kind for the same packet with another proof height: the decorator
+	// keeps one height per (kind, port, channel, sequence) and the last message of the transaction wins
+	// (CtxWithPacketProofHeight overwrites); the message of interest is the last of its kind
+	before = append(before, mk(typ, 1<<41))
 	msgs := append(append(before, mk(typ, proofHeight)), after...)
 	out, err := commontypes.NewIBCProofHeightDecorator().AnteHandle(ctx, pkTx{msgs}, false,
 		func(c sdk.Context, _ sdk.Tx, _ bool) (sdk.Context, error) { return c, nil })
